@@ -161,6 +161,9 @@ func (b *broker) react(c *simConn, p *Packet, mode respMode) {
 	}
 	sess := bc.sess
 	if b.w.scn.Mute != nil && b.w.scn.Mute(p) {
+		if p.Type == tSUBSCRIBE || p.Type == tUNSUBSCRIBE || p.Type == tPINGREQ {
+			b.w.ev(Event{K: "bk-mute", C: c.id, N: p.Type}) // this request will get no answer on this connection
+		}
 		return
 	}
 	switch p.Type {
